@@ -1,7 +1,7 @@
 import Chewing.Proofs.WalkEntries
 /-!
-Witnesses of the former findings F16, F17 (repaired: `validate_index` rejects these tables, `Props/C12.lean: witnesses_rejected`): what the
-traversals do on an index table that has NOT passed the validation.
+Witnesses of the former findings F16, F17 and of C13's F47 as it shows in a dictionary file (repaired: `validate_index` rejects
+these tables, `Props/C12.lean: witnesses_rejected`): what the traversals do on an index table that has NOT passed the validation.
 -/
 namespace Chewing.TrieWalk
 
@@ -79,7 +79,7 @@ theorem loop_not_forward : ¬ Forward loopTbl := by
 def zeroSecondTbl : Tbl Unit :=
   { recs := [⟨1, 1, 0⟩, ⟨2, 2, 10268⟩, ⟨0, 1, 0⟩, ⟨4, 1, 0⟩, ⟨0, 1, 0⟩], dataLen := 1, leaf := fun _ _ => [()] }
 
-theorem zeroSecond_panics : entriesFuel zeroSecondTbl 100 = .panic "trie:zero-syllable-unwrap" := by rfl
+theorem zeroSecond_panics : entriesFuel zeroSecondTbl 100 = .panic "trie:invalid-syllable-unwrap" := by decide
 
 /-- F17, ascend path: a zero syllable as a later sibling (`witness-F17-later-sibling`) -/
 def zeroSiblingTbl : Tbl Unit :=
@@ -90,6 +90,55 @@ theorem zeroSibling_panics : entriesFuel zeroSiblingTbl 100 = .panic "trie:debug
 theorem zeroSecond_not_noZeroChild : ¬ NoZeroChild zeroSecondTbl := by
   intro h
   exact h 1 (by decide) (Or.inr (by decide)) (by unfold InRange; decide) 3 (by decide) (by decide) rfl
+
+/-- C13's F47 met in a dictionary file: a structurally perfect index (it passes the scan of `validate_index`) whose
+    one node carries the syllable field `0x6a07` — not a syllable (`initial` field 53, tone field 7).  Before the repair
+    `Syllable::try_from` accepted it; with the repaired `try_from` alone, `entries()` would reach
+    `Syllable::try_from(0x6a07).unwrap()` (`witness-F47-invalid-syllable` of the harness) -/
+def invalidSylTbl : Tbl Unit :=
+  { recs := [⟨1, 1, 0⟩, ⟨2, 1, 27143⟩, ⟨0, 1, 0⟩], dataLen := 1, leaf := fun _ _ => [()] }
+
+theorem invalidSyl_panics : entriesFuel invalidSylTbl 100 = .panic "trie:invalid-syllable-unwrap" := by decide
+
+/-- the same with the empty-marker bit set on a non-empty pattern (`0x8208`) -/
+def markerSylTbl : Tbl Unit :=
+  { recs := [⟨1, 1, 0⟩, ⟨2, 1, 33288⟩, ⟨0, 1, 0⟩], dataLen := 1, leaf := fun _ _ => [()] }
+
+theorem markerSyl_panics : entriesFuel markerSylTbl 100 = .panic "trie:invalid-syllable-unwrap" := by decide
+
+/-- both tables are flawless but for the syllable value: the structural scan passes, `NoZeroChild` holds -/
+theorem invalidSyl_scan_ok :
+    TrieValidate.scan invalidSylTbl.rec3 1 invalidSylTbl.rec3 0 1 = true ∧
+    TrieValidate.scan markerSylTbl.rec3 1 markerSylTbl.rec3 0 1 = true := by decide
+
+theorem invalidSyl_noZeroChild : NoZeroChild invalidSylTbl := by
+  intro i hi _ _ j h1 h2
+  have hn : invalidSylTbl.n = 3 := rfl
+  have h0 : invalidSylTbl.get 0 = ⟨1, 1, 0⟩ := rfl
+  have h1' : invalidSylTbl.get 1 = ⟨2, 1, 27143⟩ := rfl
+  have h2' : invalidSylTbl.get 2 = ⟨0, 1, 0⟩ := rfl
+  have : i = 0 ∨ i = 1 ∨ i = 2 := by omega
+  rcases this with rfl | rfl | rfl
+  · rw [h0] at h1 h2; dsimp only at h1 h2; omega
+  · rw [h1'] at h1 h2; dsimp only at h1 h2; omega
+  · rw [h2'] at h1 h2; dsimp only at h1 h2; omega
+
+theorem invalidSyl_forward : Forward invalidSylTbl := by
+  intro i hi hn _
+  have hn3 : invalidSylTbl.n = 3 := rfl
+  have : i = 0 ∨ i = 1 ∨ i = 2 := by omega
+  rcases this with rfl | rfl | rfl
+  · decide
+  · decide
+  · rcases hn with h | h
+    · cases h
+    · exact absurd rfl h
+
+theorem invalidSyl_not_validSyls : ¬ ValidSyls invalidSylTbl := by
+  intro h
+  have := h 0 (by decide) (Or.inl rfl) (by unfold InRange; decide) 1 (by decide) (by decide) (by decide)
+  revert this
+  decide
 
 /-- a well-formed table (the index of the valid three-entry file of the probe): the hypotheses of
     the partial theorems are satisfiable and the walk yields its three leaves -/
